@@ -1,6 +1,7 @@
 package main
 
 import (
+	"sort"
 	"flag"
 	"fmt"
 	"os"
@@ -122,6 +123,17 @@ func printReport(rep *FuncReport, verbose bool, dump string) bool {
 		ok = false
 	}
 	sortObligations(rep.Obligations)
+	if os.Getenv("GOCV_SLOW") != "" {
+		// developer aid: the slowest obligations of the unit
+		obs := append([]*Obligation(nil), rep.Obligations...)
+		sort.SliceStable(obs, func(i, j int) bool { return obs[i].TimeS > obs[j].TimeS })
+		for i, o := range obs {
+			if i >= 12 || o.TimeS < 0.5 {
+				break
+			}
+			fmt.Printf("   slow %.1fs %s [%s] %d bytes\n", o.TimeS, strings.TrimPrefix(o.Name, rep.Key), o.Solver, o.SMTSize)
+		}
+	}
 	for _, o := range rep.Obligations {
 		if o.Status != "discharged" {
 			ok = false
